@@ -73,6 +73,12 @@ Theorem datetime_accepts_only_real_dates : forall fmt data y m d hh mm ss,
   (if year_given fmt then real_date y m d else y = 1900 /\ (real_date 1900 m d \/ (m = 2 /\ d = 29))).
 Proof. exact strptime_sound. Qed.
 
+(* the rule is translated item by item into the strptime format: for every layout made of the items DD MM YYYY YY
+   hh mm ss, a literal %, and literal characters other than D M Y h m s % (two year items not touching), in any order
+   and number - this is where "YYYY before YY" in the table read from the source matters *)
+Theorem datetime_layout_translation : forall l, layout_ok l = true -> strptime_format (layout_text l) = layout_directives l.
+Proof. exact translate_layout. Qed.
+
 (* ---------- Pattern / RegEx *)
 (* RegEx: accepted iff some prefix of the value (from its first character) is in the language of the expression *)
 Theorem regex_accept_iff : forall r cell v, has_non_ascii_t cell = false ->
@@ -92,6 +98,7 @@ Example c02_examples :
      = [HOk (VDec (mkdec (false, 123450%N, -2))); HReject; HReject]
   /\ map (datetime_hook KDelimited (txt "DD.MM.YYYY")) [txt "29.02.2000"; txt "29.02.1900"; txt "31.04.2023"]
      = [HOk (VTime 2000 2 29 0 0 0); HReject; HReject]
-  /\ strptime_format (txt "YYYY-MM-DD hh:mm:ss") = txt "%Y-%m-%d %H:%M:%S"
+  /\ strptime_format (txt "YYYY-MM-DD hh:mm:ss") = txt "%Y-%m-%d %H:%M:%S" /\ strptime_format (txt "MMmm") = txt "%m%M"
+  /\ layout_ok [LYear4; LLit 45; LMonth; LLit 45; LDay; LLit 32; LHour; LMinute; LSecond; LPercent] = true
   /\ map (pattern_hook [GChr 97; GStar; GOne; GChr 122]) [txt "AxyZ"; txt "az"; txt "a.z"] = [HOk (VStr (txt "AxyZ")); HReject; HOk (VStr (txt "a.z"))].
 Proof. repeat split; vm_compute; reflexivity. Qed.
